@@ -396,7 +396,7 @@ func runProperty(prop, tier string) (exit int) {
 
 // Rules about code that exists only in the little-endian build (serialization_littleendian.go:
 // reinterpreting casts, frozen format). The portable build (-tags appengine) copies instead.
-var littleEndianOnly = map[string]bool{"UNS1": true, "UNS2": true, "A4": true, "L4": true, "B3": true, "L5": true, "L1": true, "T1": true, "L6": true}
+var littleEndianOnly = map[string]bool{"UNS1": true, "UNS2": true, "T2": true, "A4": true, "L4": true, "B3": true, "L5": true, "L1": true, "T1": true, "L6": true}
 
 var globalAssumptions = []string{
 	"assembly routines (popcount AVX2/NEON, arm64 union2by2) read their slice arguments, write only their declared output buffer, and retain nothing",
